@@ -53,6 +53,12 @@ impl<A: Send + 'static> StreamWeakForwardRef<A> {
         let x = self.data.read();
         x.clone().unwrap().upgrade().unwrap()
     }
+
+    /// `None` once every handle of the stream has been dropped.
+    pub fn upgrade(&self) -> Option<Stream<A>> {
+        let x = self.data.read();
+        x.clone().and_then(|weak_stream| weak_stream.upgrade())
+    }
 }
 
 pub struct Stream<A> {
@@ -132,7 +138,11 @@ impl<
             let sodium_ctx = sodium_ctx.clone();
             let ss = StreamSink::downgrade(&ss);
             let listener = self.listen_weak(move |collection: &COLLECTION| {
-                let ss = ss.upgrade().unwrap();
+                // the resulting stream may be gone while this listener awaits collection
+                let ss = match ss.upgrade() {
+                    Some(ss) => ss,
+                    None => return,
+                };
                 let iter = collection.clone().into_iter();
                 for a in iter {
                     let ss = ss.clone();
@@ -427,7 +437,11 @@ impl<A: Send + 'static> Stream<A> {
             let sodium_ctx = sodium_ctx.clone();
             let ss = StreamSink::downgrade(&ss);
             let listener = self.listen_weak(move |a: &A| {
-                let ss = ss.upgrade().unwrap();
+                // the resulting stream may be gone while this listener awaits collection
+                let ss = match ss.upgrade() {
+                    Some(ss) => ss,
+                    None => return,
+                };
                 let a = a.clone();
                 sodium_ctx.post(move || ss.send(a.clone()))
             });
